@@ -9,7 +9,7 @@ import (
 // ---- generators for the key-engine properties ----
 
 func genC01(t *rapid.T) KeyCase {
-	d := genWorld(t, WorldOpts{Modes: allModes, MaxMappings: 3, Actions: allKeyActions, ActionProb: 70, KeyAxes: 2, Subs: 2})
+	d := genWorld(t, WorldOpts{Modes: allModes, MaxMappings: 3, Actions: allKeyActions, ActionProb: 70, KeyAxes: 2, Subs: 2, AxesVary: true})
 	steps := genHistory(t, d, HistOpts{MaxLen: 60, StateBias: 40, BurstMax: 4, Axes: true, Repeats: true, MidiIn: true, UnmappedKey: true})
 	return KeyCase{D: d, Steps: steps, NoLogs: rapid.IntRange(0, 9).Draw(t, "nologs") > 0}
 }
